@@ -207,7 +207,19 @@ func debugBounds(w *World, names []string) {
 	br := newBoundsRun(w)
 	defer func() { fmt.Println("total", time.Since(t0)) }()
 	var fns []*ssa.Function
-	if len(names) == 0 {
+	if len(names) > 0 && names[0] == "reach" {
+		var entries []*ssa.Function
+		for _, n := range names[1:] {
+			if fn := w.Func(n); fn != nil {
+				entries = append(entries, fn)
+			} else {
+				fmt.Println("unresolved entry", n)
+			}
+		}
+		for fn := range w.libReach(entries) {
+			fns = append(fns, fn)
+		}
+	} else if len(names) == 0 {
 		var entries []*ssa.Function
 		for _, n := range c02Entries {
 			if fn := w.Func(n); fn != nil {
